@@ -148,6 +148,28 @@ pub fn pinned(prop: &str) -> Vec<SProg> {
                 main.extend([Join(1), Join(2)]);
                 v.push(sp(vec![main, waiter(0), waiter(1)]));
             }
+            // the textbook predicate loop (`while counter < n { wait }`): such programs can always make progress, whoever
+            // notifies, under the lock or after releasing it, in one round or two
+            let round_unlocked = |note: SOp| vec![Lock(0), Incr(0), Unlock(0), note];
+            let round_locked = |note: SOp| vec![Lock(0), Incr(0), note, Unlock(0)];
+            for note in [NotifyOne, NotifyAll] {
+                for locked in [false, true] {
+                    let round = |n: SOp| if locked { round_locked(n) } else { round_unlocked(n) };
+                    v.push(sp(vec![vec![Lock(0), CvWaitUntil(2), Unlock(0), Join(1)], [round(note), round(note)].concat()]));
+                    v.push(sp(vec![vec![Lock(0), CvWaitUntil(2), Unlock(0), Join(1), Join(2)], round(note), round(note)]));
+                    v.push(sp(vec![vec![Lock(0), CvWaitUntil(1), Unlock(0), Join(1)], round(note)]));
+                }
+            }
+            v.push(sp(vec![[round_unlocked(NotifyAll), vec![Join(1), Join(2)]].concat(), vec![Lock(0), CvWaitUntil(1), Unlock(0)], vec![Lock(0), CvWaitUntil(1), Unlock(0)]]));
+            // loom models ONE spurious return per Notify object: with k notifications at most k + 1 waits return
+            v.push(sp(vec![vec![NWait, NWait, NWait], vec![NNotify]]));
+            v.push(sp(vec![vec![NWait, NWait, NWait, NWait], vec![NNotify, NNotify]]));
+            v.push(sp(vec![vec![NWait, NWait, NWait, NWait], vec![NNotify], vec![NNotify]]));
+            // ... in a program that never deadlocks (every notification is acknowledged through the channel before the
+            // next one): with one spurious return the waiter can be one notification ahead, never two, so its final load
+            // sees at least the store made before the second notification
+            v.push(sp(vec![vec![NNotify, Recv, AStore(0, 1), NNotify, Recv, AStore(0, 2), NNotify, Join(1)], vec![NWait, Send(11), NWait, Send(12), NWait, ALoad(0)]]));
+            v.push(sp(vec![vec![NNotify, Recv, AStore(0, 1), NNotify, Join(1)], vec![NWait, Send(11), NWait, ALoad(0)]]));
             // one waiter, notified while known to be waiting; and a notification that cannot be lost because the
             // notifier holds the mutex
             v.push(sp(vec![vec![AwaitA(0, 1), Lock(0), NotifyOne, Unlock(0), Join(1)], waiter(0)]));
@@ -297,7 +319,7 @@ fn triggers(p: &SProg) -> Vec<&'static str> {
         for op in &p.threads[t] {
             if let SOp::Unpark(u) = op {
                 let u = *u as usize;
-                if u < n && p.threads[u].iter().any(|o| matches!(o, SOp::Join(_) | SOp::Lock(_) | SOp::Recv | SOp::CvWait | SOp::NWait | SOp::Read | SOp::Write)) {
+                if u < n && p.threads[u].iter().any(|o| matches!(o, SOp::Join(_) | SOp::Lock(_) | SOp::Recv | SOp::CvWait | SOp::CvWaitUntil(_) | SOp::NWait | SOp::Read | SOp::Write)) {
                     v.push("unpark_of_thread_that_blocks_elsewhere");
                 }
                 if u == 0 {
